@@ -400,7 +400,11 @@ pub fn check(prop: &str, tier: &str) -> i32 {
     let time_cap: f64 = std::env::var("LLSIM_TIME_CAP")
         .ok()
         .and_then(|s| s.parse().ok())
-        .unwrap_or(if tier == "thorough" { 1500.0 } else { 75.0 });
+        .unwrap_or(match tier {
+            "thorough" => 1200.0,
+            "geo" => 240.0,
+            _ => 75.0,
+        });
     let start = Instant::now();
     println!("llsim check {prop} tier={tier} VERIF_SEED={seed} workers={nshards}");
     let tmp = root().join("sim/target/tmp").join(format!("{prop}-{tier}-{}", std::process::id()));
